@@ -302,7 +302,8 @@ OpObs(r, val) ==
                             \* C14: the only acceptable failure is the out-of-memory error
                             O("C14", "fail.not_oom:" \o r.op, Has(r.res, "oom")),
                             \* ... and not after enough space has been freed
-                            O("C14", "retry.ok:" \o r.op, ~aux.expectOk) >>
+                            O("C14", "retry.ok:" \o r.op, ~aux.expectOk),
+                            O("C07", "conc.failed:" \o r.op, FALSE) >>
   ELSE
     LET g == r.g
         ok == OpGraphOk(r)
@@ -312,6 +313,10 @@ OpObs(r, val) ==
           O("C14", "sem:" \o r.op, ArgsLive(r) /\
                 (IF r.op \in PickOps THEN PickDdOk(r, val) ELSE val = Expected(r))),
           O("C14", "canon:" \o r.op, \A s \in Live : (Val(s) = val) <=> (EdgeOf(s) = r.e)),
+          O("C07", "conc.sem:" \o r.op, ArgsLive(r) /\
+                (IF r.op \in PickOps THEN PickDdOk(r, val) ELSE val = Expected(r))),
+          O("C07", "conc.canon:" \o r.op, \A s \in Live : (Val(s) = val) <=> (EdgeOf(s) = r.e)),
+          O("C07", "conc.graph:" \o r.op, ok /\ GraphOrdered(g) /\ \A i \in 1 .. Len(g) : NodeReduced(g[i])),
           O("C06", "cache:" \o r.op, ArgsLive(r) /\
                 (IF r.op \in PickOps THEN PickDdOk(r, val) ELSE val = Expected(r))),
           O("C02", "eval", SeqToSet(r.tt) = val),
@@ -410,6 +415,14 @@ TrBegin ==
   /\ Step(<<>>)
   /\ UNCHANGED <<kind, n, l2v, hs, gcN, roN, aux>>
 
+(* a collection that ran concurrently with operations of other threads *)
+TrCGc ==
+  /\ Ev("cgc")
+  /\ Step(<<>>)
+  /\ gcN' = gcN + 1
+  /\ aux' = [aux EXCEPT !.fresh = FALSE]
+  /\ UNCHANGED <<kind, n, l2v, hs, roN>>
+
 (* C14: after space has been freed the failed operation is retried and must
    succeed; `expect_ok` events precede the retry *)
 TrExpectOk ==
@@ -498,6 +511,10 @@ SnapObs(r) ==
         \* the diagram is intact
         O("C14", "snap.after_failure", aux.afterFail =>
               (ok /\ stable /\ GraphOrdered(g) /\ levelsOk /\ reducedOk /\ nodupOk /\ semInj /\ rcOk)),
+        \* C07: snapshots are only taken when no operation is in progress
+        O("C07", "snap.quiescent",
+              ok /\ stable /\ GraphOrdered(g) /\ levelsOk /\ reducedOk /\ nodupOk /\ semInj /\ rcOk),
+        O("C07", "snap.gc.complete", (aux.afterGc /\ ok) => \A i \in I : N[i][4] > 0),
         O("C08", "snap.wellformed", aux.afterRo =>
               (ok /\ GraphOrdered(g) /\ levelsOk /\ reducedOk /\ nodupOk /\ semInj /\ rcOk)),
         O("C05", "snap.gc.complete", (aux.afterGc /\ ok) => \A i \in I : N[i][4] > 0),
@@ -519,7 +536,7 @@ TrInit ==
 TrNext ==
   \/ TrReset \/ TrAddVars \/ TrOp \/ TrCofNone \/ TrClone \/ TrDrop
   \/ TrGc \/ TrReorder \/ TrObs \/ TrSnap \/ TrAdopt \/ TrConstructMismatch
-  \/ TrRows \/ TrBegin \/ TrPick \/ TrUni \/ TrCount \/ TrExpectOk
+  \/ TrRows \/ TrBegin \/ TrPick \/ TrUni \/ TrCount \/ TrExpectOk \/ TrCGc
 
 TrSpec == TrInit /\ [][TrNext]_tvars
 
